@@ -309,7 +309,7 @@ def step (_ : Unit) : List String → Unit × String
       match (rest.take n).mapM parseOutcomeEntry, (rest.drop n).mapM Str.unhex with
       | some table, some ks =>
         -- a request the table does not list is reported, never defaulted
-        let oc : List Str → Except Exc Unit × Except Exc Unit := fun req =>
+        let oc : List (List Str) → List Str → Except Exc Unit × Except Exc Unit := fun _ req =>
           match table.find? (fun e => e.1 == req) with
           | some e => e.2
           | none => (.ok (), .ok ())
